@@ -2,7 +2,7 @@
 import itertools
 
 from extract import break_table
-from harness import docs
+from harness import docs, pm, pm_corr
 from vlib import sx
 from vlib.framework import PropCheck
 
@@ -174,6 +174,13 @@ class C04(PropCheck):
             sec2.add(sx.line('between', wire(a), wire(b)), out, meta={'values': vals, 'k': None, 'trees': [a, b]},
                      nontrivial=len(vals) >= 2, tags=[f'meet{min(len(vals), 6)}'])
 
+        sec4 = run.section(
+            'pm-documents',
+            'random block/paragraph documents with break-before/-after/-inside on about half the boxes, named pages, '
+            'orphans/widows 1..4: page types (side, blank, name), resume_at, next_page and every fragment compared '
+            'exactly with the pagination model; non-trivial = at least 2 pages')
+        pm_corr.add_cases(run, sec4, run.n(200, 5000), gen=break_heavy_doc)
+
         class Ctx:
             def __init__(self, col):
                 self.in_column = col
@@ -184,6 +191,9 @@ class C04(PropCheck):
                 sec3.add(sx.line('forces', col, v), str(bool(block.force_page_break(v, Ctx(col)))).lower())
 
     def judge(self, d):
+        if d['section'] == 'pm-documents':
+            doc = pm_corr.doc_from_json(d['meta']['doc'])
+            return pm_break_violation(doc, d['impl'])
         if d['section'] in ('break-sequences', 'break-trees'):
             values = d['meta']['values']
             if d['impl'].startswith('err:'):
@@ -249,6 +259,77 @@ class C04(PropCheck):
                 a, b = chain_trees(vals, k)
             return reference_violation(vals, block.block_level_page_break(make_real(a), make_real(b)))
         return None
+
+
+def break_heavy_doc(rng):
+    doc = pm.gen_doc(rng)
+
+    def walk(box):
+        st = box['st']
+        if rng.random() < 0.3:
+            st['brkBefore'] = rng.choice(VALUES)
+        if rng.random() < 0.3:
+            st['brkAfter'] = rng.choice(VALUES)
+        st['height'] = 'auto'
+        for kid in box['kids']:
+            walk(kid)
+    walk(doc['root']['kids'][0])
+    return doc
+
+
+def pm_break_violation(doc, impl_out):
+    """Adjacency oracle on the PM output of the implementation: forced breaks between siblings start a new
+    page of the requested side; orphans/widows hold when the page had content before the paragraph."""
+    from vlib import sx
+    if impl_out.startswith('err:'):
+        return f'pagination raised {impl_out}'
+    pages = sx.loads_line(impl_out)
+    first_page, last_page = {}, {}
+    for page in pages:
+        index = int(page[1])
+
+        def walk(frag):
+            ident = int(frag[1])
+            first_page.setdefault(ident, index)
+            last_page[ident] = index
+            if frag[0] == 'b':
+                for kid in frag[-1]:
+                    walk(kid)
+        walk(page[-1])
+
+    def last_chain(box):
+        out = [box['st']['brkAfter']]
+        if box['kind'] == 'block' and box['kids']:
+            out += last_chain(box['kids'][-1])
+        return out
+
+    def first_chain(box):
+        out = [box['st']['brkBefore']]
+        if box['kind'] == 'block' and box['kids']:
+            out += first_chain(box['kids'][0])
+        return out
+
+    def check(box):
+        kids = box['kids']
+        for a, b in zip(kids, kids[1:]):
+            values = last_chain(a)[::-1] + first_chain(b)
+            if any(v in FORCE_PAGE for v in values) and a['id'] in last_page and b['id'] in first_page:
+                if last_page[a['id']] == first_page[b['id']]:
+                    return f'forced break {values} between boxes {a["id"]} and {b["id"]} not honoured'
+                sides = [v for v in values if v in SIDES]
+                if sides:
+                    want = sides[-1]
+                    ltr = doc['ltr']
+                    right = {'right': True, 'left': False, 'recto': ltr, 'verso': not ltr}[want]
+                    page = pages[first_page[b['id']]]
+                    if (page[2] == 'true') != right:
+                        return f'box {b["id"]} starts on a {"right" if page[2] == "true" else "left"} page, {want} requested'
+        for kid in kids:
+            bad = check(kid)
+            if bad:
+                return bad
+        return None
+    return check(doc['root'])
 
 
 def tuple_tree(t):
